@@ -308,3 +308,157 @@ Example C19_counters_follow_example :
   Model.Serve.serve CDB (store_v1 e_recs) e_q1 Model.Serve.LocNil None 2 = ONoReply.
 Proof. exact counters_follow_example. Qed.
 Print Assumptions C19_counters_follow_example.
+
+(* ================================================================== C19 x C13 x C01: no side condition about the run
+   (Proofs/LinkCountersNoPanic.v).  C19_counters_follow_serve above carries two hypotheses about the run (serve is
+   neither OPanic nor OFuel).  C13_no_panic discharges them: the label-by-label readers (CDB, RocksDB v1 keys) never
+   panic and never exhaust the supplied fuel for a wire-valid query name ([wire_name]: labels of 1..63 bytes, root
+   label last, at most 255 octets) on ANY store; the closest-key reader (RocksDB v2 keys) on every store that
+   satisfies the DECIDABLE key guard [wf_store_v2] (Spec/KeysV2.v: every key once; keys under the resource-record
+   marker are marker ++ reversed name ++ two location bytes or have a third byte >= 64) for a two-byte location
+   ([loc_wf]).  C13 and C19 speak about the same [Model/Serve.serve b st]: no adapter between reader instances is
+   needed.  [counters_follow sd q out o] is literally the conclusion of C19_counters_follow_serve
+   (C19_counters_follow_meaning). *)
+From DnsV Require Import Spec.KeysV2 Proofs.NoPanic Proofs.NoPanicV2.
+From DnsV Require Import Proofs.FileLevelExample Proofs.ComposeExample Proofs.LinkCountersNoPanic Proofs.LinkCountersNoPanicExample.
+
+Theorem C19_counters_follow_meaning : forall sd q out o,
+  counters_follow sd q out o <->
+  (let l := o_incs o in
+   cnt KQueries l = 1%nat /\
+   cnt (KType (q_type q)) l = 1%nat /\
+   (forall t, t <> q_type q -> cnt (KType t) l = 0%nat) /\
+   (forall k, (cnt k l <= 1)%nat) /\
+   resp_class sd out = Some (o_writes o) /\
+   match out with
+   | OReply x =>
+       if (rs_rcode x =? 2) || s_write_err sd
+       then cnt KNxdomain l = 0%nat /\ cnt KRefused l = 0%nat /\ cnt KBadvers l = 0%nat /\
+            cnt KNodata l = 0%nat /\ cnt KNotAuthoritative l = 0%nat /\ nlog LogSent (o_logs o) = 0%nat
+       else cnt KNxdomain l = b2n (rs_rcode x =? 3) /\
+            cnt KRefused l = b2n (rs_rcode x =? 5) /\
+            cnt KBadvers l = b2n (rs_rcode x =? 16) /\
+            cnt KNodata l = b2n ((rs_rcode x =? 0) && (item_count (rs_an x) =? 0)) /\
+            cnt KNotAuthoritative l = b2n (negb (rs_aa x)) /\
+            o_logs o = [LogSent]
+   | _ => cnt KNxdomain l = 0%nat /\ cnt KRefused l = 0%nat /\ cnt KBadvers l = 0%nat /\
+          cnt KNodata l = 0%nat /\ cnt KNotAuthoritative l = 0%nat /\ nlog LogSent (o_logs o) = 0%nat
+   end).
+Proof. intros. apply iff_refl. Qed.
+Print Assumptions C19_counters_follow_meaning.
+
+(* C19_counters_follow_serve_wf: label-by-label readers - EVERY store (no guard at all), every wire-valid query,
+   every location result, ECS option, max answer and side condition *)
+Theorem C19_counters_follow_serve_wf : forall sd b st q locr ecs max,
+  b <> RDB2 -> wire_name (q_name q) = true ->
+  counters_follow sd q (Model.Serve.serve b st q locr ecs max)
+                  (Model.Counters.serve (class_of sd b st q locr ecs max)).
+Proof. exact counters_follow_serve_wf. Qed.
+Print Assumptions C19_counters_follow_serve_wf.
+
+(* closest-key reader: every store with well-formed keys *)
+Theorem C19_counters_follow_serve_wf_v2 : forall sd st q locr ecs max,
+  wf_store_v2 st = true -> wire_name (q_name q) = true -> loc_wf locr ->
+  counters_follow sd q (Model.Serve.serve RDB2 st q locr ecs max)
+                  (Model.Counters.serve (class_of sd RDB2 st q locr ecs max)).
+Proof. exact counters_follow_serve_wf_v2. Qed.
+Print Assumptions C19_counters_follow_serve_wf_v2.
+
+(* the three readers in one statement *)
+Theorem C19_counters_follow_serve_wf_any : forall sd b st q locr ecs max,
+  (b = RDB2 -> wf_store_v2 st = true /\ loc_wf locr) -> wire_name (q_name q) = true ->
+  counters_follow sd q (Model.Serve.serve b st q locr ecs max)
+                  (Model.Counters.serve (class_of sd b st q locr ecs max)).
+Proof. exact counters_follow_serve_wf_any. Qed.
+Print Assumptions C19_counters_follow_serve_wf_any.
+
+(* the guards C13 asks of the store hold for every database form of gen_declares - the row-level compilation in
+   the v2 layout (C13_compiled_store_wf) and EVERY dump of a RocksDB the modelled compilers produce with v2 keys from
+   the text of a well-formed data file (new: the name keys are reversed names of declared owners, every other key
+   is foreign - \000o_features has third byte 95) ... *)
+Theorem C19_gen_declares_guard : forall g L recs, Proofs.Compose.gen_declares g L recs ->
+  Model.Compose.g_backend g = RDB2 ->
+  wf_store_v2 (Model.Compose.g_store g) = true /\ loc_wf (Model.Serve.LocOk L).
+Proof. exact gen_declares_guard. Qed.
+Print Assumptions C19_gen_declares_guard.
+
+(* ... the name guard of the C01 theorems implies C13's, and a located query is always answered *)
+Theorem C19_wire_of_pack : forall (n : name) l, wf_name n -> nlen (pack n) <= 255 -> lower_bytes l = pack n ->
+  wire_name l = true.
+Proof. exact wire_of_pack. Qed.
+Print Assumptions C19_wire_of_pack.
+Theorem C19_located_query_is_answered : forall b st q loc ecs max,
+  Model.Serve.serve b st q (Model.Serve.LocOk loc) ecs max <> ONoReply.
+Proof. exact serve_located_replies. Qed.
+Print Assumptions C19_located_query_is_answered.
+
+(* C19_counters_by_spec_total: C19_counters_by_spec without any hypothesis about the run.  For every database form
+   of gen_declares, a client located in L, every query under the name guard of the C01 theorems with EDNS version 0
+   or no OPT, when WriteMsg succeeds: the handler DOES write a reply x, x refines Spec/Answer.spec_response of the
+   declared records, and the counters are those the response class prescribes ([counters_by_spec]: the conclusion
+   of C19_counters_by_spec).  Remaining hypotheses: the data (gen_declares), the query's name and EDNS version,
+   s_write_err = false - nothing about serve's outcome *)
+Theorem C19_counters_by_spec_total : forall g L recs, Proofs.Compose.gen_declares g L recs ->
+  forall sd q n ecs max,
+  wf_name n -> nlen (pack n) <= 255 -> lower_bytes (q_name q) = pack n ->
+  (q_edns q = None \/ q_edns q = Some 0) ->
+  s_write_err sd = false ->
+  exists x,
+    Model.Serve.serve (Model.Compose.g_backend g) (Model.Compose.g_store g) q (Model.Serve.LocOk L) ecs max = OReply x /\
+    Proofs.FileLevel.response_refines L recs n q ecs max x /\
+    counters_by_spec L recs n q max
+      (Model.Counters.serve (class_of sd (Model.Compose.g_backend g) (Model.Compose.g_store g) q (Model.Serve.LocOk L) ecs max)).
+Proof. exact counters_by_spec_total. Qed.
+Print Assumptions C19_counters_by_spec_total.
+
+Theorem C19_counters_by_spec_meaning : forall L recs n q max o,
+  counters_by_spec L recs n q max o <->
+  (let l := o_incs o in
+   cnt KQueries l = 1%nat /\ cnt (KType (q_type q)) l = 1%nat /\
+   (forall t, t <> q_type q -> cnt (KType t) l = 0%nat) /\
+   match spec_response L recs n (q_type q) with
+   | Refused =>
+       cnt KRefused l = 1%nat /\ cnt KNxdomain l = 0%nat /\ cnt KNodata l = 0%nat /\
+       cnt KNotAuthoritative l = 1%nat /\ cnt KBadvers l = 0%nat /\ o_logs o = [LogSent]
+   | Referral z nsr =>
+       q_type q <> 43 ->
+       cnt KRefused l = 0%nat /\ cnt KNxdomain l = 0%nat /\ cnt KNodata l = 1%nat /\
+       cnt KNotAuthoritative l = 1%nat /\ cnt KBadvers l = 0%nat /\ o_logs o = [LogSent]
+   | Answer z nx ans soa =>
+       cnt KRefused l = 0%nat /\ cnt KNotAuthoritative l = 0%nat /\
+       cnt KNxdomain l = b2n nx /\
+       (nx = true <-> source_records L recs z n = []) /\
+       cnt KNodata l = b2n (negb nx && (declared_count max ans =? 0)) /\
+       cnt KBadvers l = 0%nat /\ o_logs o = [LogSent]
+   end).
+Proof. intros. apply iff_refl. Qed.
+Print Assumptions C19_counters_by_spec_meaning.
+
+(* non-vacuity on concrete compiled databases (Proofs/ComposeExample.v: y_g2 = the v2-keyed RocksDB store compiled
+   from the five declared records of the data file of C01_file_level_example, 3 keys; y_g1 = the CDB of that file's
+   text): the guards hold; TXT Foo.example.com gets the wildcard's text (one answer, no outcome counter), A
+   no.example.com is NODATA (covered by the wildcard, which has no A record - not NXDOMAIN), TXT Foo.org REFUSED; and
+   the unconditional statements for these two databases *)
+Example C19_counters_no_panic_example :
+  Model.Compose.g_backend y_g2 = RDB2 /\ wf_store_v2 (Model.Compose.g_store y_g2) = true /\
+  (length (Model.Compose.g_store y_g2) = 3)%nat /\
+  wire_name (q_name x_q1) = true /\ wire_name (q_name n_q3) = true /\ wire_name (q_name n_q4) = true /\
+  loc_wf (Model.Serve.LocOk [0; 0]) /\
+  o_incs (Model.Counters.serve (class_of n_sd RDB2 (Model.Compose.g_store y_g2) x_q1 (Model.Serve.LocOk [0; 0]) None 1)) =
+    [KQueries; KType 16; KLocEmpty; KRespAuth] /\
+  o_writes (Model.Counters.serve (class_of n_sd RDB2 (Model.Compose.g_store y_g2) x_q1 (Model.Serve.LocOk [0; 0]) None 1)) =
+    [WrComposed 0 true 1 true] /\
+  o_incs (Model.Counters.serve (class_of n_sd RDB2 (Model.Compose.g_store y_g2) n_q3 (Model.Serve.LocOk [0; 0]) None 1)) =
+    [KQueries; KType 1; KLocEmpty; KRespAuth; KNodata] /\
+  o_incs (Model.Counters.serve (class_of n_sd RDB2 (Model.Compose.g_store y_g2) n_q4 (Model.Serve.LocOk [0; 0]) None 1)) =
+    [KQueries; KType 16; KLocEmpty; KRespRefused; KNotAuthoritative; KRefused] /\
+  (forall sd q locr ecs max, wire_name (q_name q) = true -> loc_wf locr ->
+     counters_follow sd q (Model.Serve.serve RDB2 (Model.Compose.g_store y_g2) q locr ecs max)
+                     (Model.Counters.serve (class_of sd RDB2 (Model.Compose.g_store y_g2) q locr ecs max))) /\
+  (forall sd q n ecs max, wf_name n -> nlen (pack n) <= 255 -> lower_bytes (q_name q) = pack n ->
+     (q_edns q = None \/ q_edns q = Some 0) -> s_write_err sd = false ->
+     exists x, Model.Serve.serve CDB (Model.Compose.g_store y_g1) q (Model.Serve.LocOk x_L) ecs max = OReply x /\
+               counters_by_spec x_L x_recs n q max
+                 (Model.Counters.serve (class_of sd CDB (Model.Compose.g_store y_g1) q (Model.Serve.LocOk x_L) ecs max))).
+Proof. exact counters_no_panic_example. Qed.
+Print Assumptions C19_counters_no_panic_example.
